@@ -21,7 +21,8 @@ type FuncResult struct {
 func (e *Engine) newFX(fn *ssa.Function, name string, c *Contract) *FX {
 	return &FX{e: e, fn: fn, name: name, c: c,
 		compSorts: map[string]string{}, knownComps: map[string]bool{}, epochConsts: map[string]Term{},
-		obCount: map[string]int{}, inputs: map[string]string{}, usesAx: map[string]bool{}, bufSlices: map[string]Term{}}
+		obCount: map[string]int{}, inputs: map[string]string{}, usesAx: map[string]bool{}, bufSlices: map[string]Term{},
+		invAssumed: map[string]bool{}, invBroken: map[string]bool{}}
 }
 
 // VerifyFunc generates the obligations of one function under its contract.
@@ -200,6 +201,7 @@ func (fx *FX) runTop() (errmsg string) {
 				fx.oblige(x.st, "post", fmt.Sprintf("ensures#%d%s@ret#%d", j+1, lbl(cl), x.idx+1), cl.Text, g, x.pos, propsOr(cl.Props, c.Props))
 			}
 			fx.frameObligations(fx.oldState, x)
+			fx.typeInvObligations(fr, x)
 			for j, cl := range c.ClosureInv {
 				g := fx.evalBool(env, cl.Expr)
 				fx.oblige(x.st, "post", fmt.Sprintf("closure-invariant#%d@ret#%d", j+1, x.idx+1), cl.Text, g, x.pos, propsOr(cl.Props, c.Props))
@@ -383,4 +385,36 @@ func stripQuantifiedAsserts(text string) string {
 		b.WriteString("\n")
 	}
 	return b.String()
+}
+
+// typeInvObligations: a function that wrote a field mentioned by an object invariant re-establishes
+// the invariant before returning successfully (last result nil when it is an error).
+func (fx *FX) typeInvObligations(fr *frame, x exitPoint) {
+	seen := map[string]bool{}
+	for _, os := range fx.invObjs {
+		k := os[0] + "|" + os[1]
+		if seen[k] {
+			continue
+		}
+		seen[k] = true
+		ti := fx.typeInvFor(os[1])
+		typ := fx.e.lookupType(ti.Type)
+		if typ == nil {
+			continue
+		}
+		fx.inInv = true
+		env := fx.newEnv(nil, x.st)
+		env.onlyNames = true
+		obj := T(os[0], SRef)
+		env.names["self"] = Val{T: obj, Typ: types.NewPointer(typ)}
+		g := fx.evalBool(env, ti.Expr)
+		fx.inInv = false
+		ok := True
+		if n := len(x.results); n > 0 && x.results[n-1].T.Sort == SIface {
+			if types.Identical(fx.fn.Signature.Results().At(n-1).Type(), types.Universe.Lookup("error").Type()) {
+				ok = IfaceIsNil(x.results[n-1].T)
+			}
+		}
+		fx.oblige(x.st, "post", fmt.Sprintf("type-invariant(%s)@ret#%d", ti.Type, x.idx+1), "object invariant re-established: "+ti.Text, Implies(ok, g), x.pos, nil)
+	}
 }
